@@ -64,6 +64,23 @@ theorem mkCatalog_legacy_list (i : CatalogIn) (ps : List PredSpec) (h : ‚àÄ p ‚à
   simp only [mkCatalog]
   rw [foldl_congr_mem (predStepLegacy _) (predStepList _) ps (fun st p hp => predStep_legacy_list _ st p (h p hp))]
 
+/-- letter case of `default_namespace` does not matter (10d49ed) -/
+theorem mkCatalog_default_case (i : CatalogIn) :
+    mkCatalog { i with defaultNs := i.defaultNs.map lower } = mkCatalog i := by
+  cases h : i.defaultNs <;> simp [mkCatalog, h, lower_idem]
+
+theorem defaultOk_mkCatalog (i : CatalogIn) (h : defaultKnown (mkCatalog i) = true) :
+    defaultOk (mkCatalog i) = true := by
+  unfold defaultKnown at h
+  unfold defaultOk
+  cases hd : i.defaultNs with
+  | none => simp [mkCatalog, hd]
+  | some d =>
+    have e : (mkCatalog i).defaultNs = some (lower d) := by simp [mkCatalog, hd]
+    rw [e] at h ‚ä¢
+    simp only [decide_eq_true_eq] at h
+    simp [h, lower_idem]
+
 /-! ### resolvers -/
 
 /-- the part of a resolver's answer that routing depends on: database, and table path up to case -/
